@@ -24,7 +24,8 @@ E(o) == DOMAIN o.ends
 Count(ev, k) == Cardinality({i \in 1..Len(ev) : ev[i][1] = k})
 DataOf(ev) == SelectSeq(ev, LAMBDA x : x[1] = "data")
 \* ... exactly once: at most once at any time, and - once everything in flight has arrived - every subchannel opened towards a
-\* side that listens for its name has appeared there (missingOpens: those that have not)
+\* side that listens for its name has appeared there, and every subchannel somebody closed has been lost once on both sides
+\* (missingOpens: what is missing)
 P_OpensOnce(o) == /\ \A e \in E(o) : Count(o.ends[e].ev, "made") <= 1 /\ Count(o.ends[e].ev, "lost") <= 1
                   /\ (o.kind = "sub" => o.missingOpens = <<>>)
 P_NothingAfterLost(o) == \A e \in E(o) : \A i, j \in 1..Len(o.ends[e].ev) : (o.ends[e].ev[i][1] = "lost" /\ i < j) => FALSE
